@@ -231,6 +231,14 @@ class EpisodeMonitor:
                 if s["is_async"] and stored and not oversize and (d is None or key not in d[0] or d[0][key][0] != o["would"]):
                     pid = "C10" if s["cache_if"] else ("C09" if s["is_result"] else "C01")
                     self.fail(pid, f"call {op}: the result was accepted for caching but the cache does not hold it afterwards")
+                # sync FIFO / LRU plain store, sequential history: the newcomer sits at the back of a duplicate-free queue whose
+                # slots are all stored (C04.inv_reachable), the victim of an overflow is the FRONT — so an accepted result is
+                # present afterwards (theorem C04.insert_exact).  A change that leaves orphan slots behind breaks exactly this.
+                if (not s["is_async"]) and stored and not s["use_mem"] and s["policy"] in ("fifo", "lru") and \
+                        (s["limit"] is None or s["limit"] >= 1) and \
+                        (d is None or key not in d[0] or d[0][key][0] != o["would"]):
+                    pid = "C10" if s["cache_if"] else ("C09" if s["is_result"] else "C04")
+                    self.fail(pid, f"call {op}: the result was accepted for caching (FIFO/LRU, plain store) but the cache does not hold it afterwards")
                 # a stale entry that is refreshed is replaced in place (sync plain store): the fresh value is cached
                 if (not s["is_async"]) and o["check"] and stored and not s["use_mem"] and \
                         (d is None or key not in d[0] or d[0][key][0] != o["would"]):
